@@ -211,7 +211,8 @@ fn regret_match_positive<const N: usize>() {
     assert!(is_distribution(&s), "C05.K.regret_match.distribution: positive branch gives a distribution");
     let mut j = 0;
     while j < N {
-        assert!((s[j] == 0.0) == !(orig[j] > 0.0), "C08.K.regret_match.positive: support is exactly the positive regrets");
+        // (a tiny positive regret may underflow to probability 0 next to a huge one, so only this direction is exact)
+        assert!(orig[j] > 0.0 || s[j] == 0.0, "C08.K.regret_match.positive: non-positive regrets get probability exactly 0");
         assert!(r[j].to_bits() == orig[j].to_bits(), "C08.K.regret_match.frame: regrets unchanged");
         let mut k = 0;
         while k < N {
